@@ -23,14 +23,25 @@ func emitCase(emit Emit, c editops.ECase, withModel bool) {
 }
 
 func gen(r *Rng, tier string, emit Emit) {
-	n, nmut := 260, 6
+	n, nmut, ngr := 500, 8, 150
 	if tier == "thorough" {
-		n, nmut = 6000, 60
+		n, nmut, ngr = 6000, 60, 3000
 	}
 	for it := 0; it < n; it++ {
 		rr := r.Fork(uint64(it))
 		c := editops.GenCase(rr, rr.Pick(0, 0, 1), rr.Range(1, 3))
 		emitCase(emit, c, true)
+	}
+	// images of the general grammar (all section kinds, arbitrary names): model correspondence
+	for it := 0; it < ngr; it++ {
+		rr := r.Fork(uint64(5000000 + it))
+		c := editops.GenCaseGrammar(rr, rr.Range(1, 3))
+		if len(c.Img) > modelMax {
+			continue
+		}
+		args := append([]string{H(c.Img)}, editops.Tokens(c.Ops)...)
+		emit("C", "edit", args...)
+		emit("P", "p_c02", args...)
 	}
 	// the two renderings of the reader agree, also on images that break one rule
 	for it := 0; it < nmut; it++ {
